@@ -308,6 +308,25 @@ func c12CheckLine(c *core.Ctx, line string, id int, valid, noise *[]string) {
 			}
 			res := &urlfilter.DNSResult{NetworkRules: []*rules.NetworkRule{nr, nr}}
 			_ = res.DNSRewrites()
+			// $badfilter rules that equal this rule in everything but one list
+			// modifier which only they carry: the twin comparison walks down to
+			// that modifier and meets an absent one on the other side.
+			sep := "$"
+			if t := strings.TrimSpace(line); strings.Contains(t, "$") && !strings.HasSuffix(t, "$") && !nr.IsRegexRule() {
+				sep = ","
+			}
+			for _, extra := range []string{"badfilter", "client=~10.0.0.5,badfilter", "client=Mom,badfilter", "ctag=~device_pc,badfilter", "dnstype=~A,badfilter", "denyallow=x.example,badfilter", "domain=~x.example,badfilter", "dnsrewrite=1.2.3.4,badfilter"} {
+				tw, terr := rules.NewNetworkRule(strings.TrimSpace(line)+sep+extra, id)
+				if terr != nil || tw == nil {
+					continue
+				}
+				for _, pair := range [][]*rules.NetworkRule{{nr, tw}, {tw, nr}} {
+					mr := rules.NewMatchingResult(append([]*rules.NetworkRule(nil), pair...), append([]*rules.NetworkRule(nil), pair...))
+					_ = mr.GetBasicResult()
+					_ = rules.GetDNSBasicRule(append([]*rules.NetworkRule(nil), pair...))
+					_ = (&urlfilter.DNSResult{NetworkRules: append([]*rules.NetworkRule(nil), pair...)}).DNSRewrites()
+				}
+			}
 		})
 	}
 	switch v := r.(type) {
